@@ -49,6 +49,8 @@ type Engine struct {
 	inconMu sync.Mutex
 	incon   map[string]bool
 
+	sliceOfIface   types.Type
+	mapStringIface types.Type
 	visited  *visitedSet
 	hashGlobals []*ssa.Global
 	fnInfos  sync.Map
@@ -248,6 +250,9 @@ func (eng *Engine) load(spec *CheckSpec) error {
 			}
 		}
 	}
+	emptyIface := types.NewInterfaceType(nil, nil)
+	eng.sliceOfIface = types.NewSlice(emptyIface)
+	eng.mapStringIface = types.NewMap(types.Typ[types.String], emptyIface)
 	// well-known types
 	eng.errorIface = types.Universe.Lookup("error").Type().Underlying().(*types.Interface)
 	if ep := eng.pkgs["errors"]; ep != nil {
